@@ -11,8 +11,9 @@
 (*                                                                                            *)
 (* A case: [id, flags : <<deviation flags>>, trace : <<lines>>].  Lines (field k):             *)
 (*   spawn t kind c dn dkm ts | spawnf t c ts | envcancel t | start t ts                        *)
-(*   op t op ...  (unique n km | sleep d ts | raise | fin | create ch | cancel v | addcb v f a  *)
+(*   op t op ...  (unique c n km [c = global context of the calling code] | sleep d ts | raise | fin | create ch | cancel v | addcb v f a  *)
 (*                 | rmcb v f | wait v | call ch c bl)                                          *)
+(*   n2i t c view             task.name2id() called by t from code of global context c: owner of every name   *)
 (*   exc t                    the API call of the preceding op line raised in the caller        *)
 (*   res t ts w               resumed after sleep (w = "-") / task.wait (w = what it saw) /     *)
 (*                            a blocking service call (w = "called")                            *)
@@ -51,7 +52,7 @@ StartLine ==
 OpLine ==
   /\ IsLine("op") /\ Adv
   /\ LET L == Line  t == Line.t IN
-     CASE L.op = "unique" -> OpUnique(t, L.n, L.km) /\ UNCHANGED due
+     CASE L.op = "unique" -> OpUnique(t, L.c, L.n, L.km) /\ UNCHANGED due
        [] L.op = "sleep"  -> OpSleep(t) /\ due' = [due EXCEPT ![t] = L.ts + L.d]
        [] L.op = "raise"  -> OpRaise(t) /\ UNCHANGED due
        [] L.op = "fin"    -> OpFinish(t) /\ UNCHANGED due
@@ -63,6 +64,12 @@ OpLine ==
        [] L.op = "exec"   -> OpExec(t) /\ UNCHANGED due
        \* the called run starts in the instant of the call, like every other run
        [] L.op = "call"   -> OpCall(t, L.ch, L.c, L.bl) /\ due' = [due EXCEPT ![L.ch] = L.ts]
+\* task.name2id(), asked by the running task t from code of global context c (right after a task.unique there):
+\* every name of that context with its owner - "the caller becomes the name's owner as reported by task.name2id"
+N2iLine ==
+  /\ IsLine("n2i") /\ Adv /\ cur = Line.t /\ Line.c \in CodeCtx(Line.t)
+  /\ \A n \in Name : View(Line.c)[n] = Line.view[n]
+  /\ UNCHANGED <<vars, due>>
 \* the preceding API call raised: only a deviation flag makes the model do that
 ExcLine ==
   /\ IsLine("exc") /\ Adv
@@ -130,7 +137,7 @@ S_WaitWake      == Keep /\ \E t \in All : NextIsResumeOf(t) /\ WaitWake(t)
 S_CalleeKills   == Keep /\ \E t \in All : CalleeKills(t) /\ WaitWake(t)
 Silent == S_ReaperTake \/ S_ReaperDone \/ S_DeliverCancel \/ S_Cleanup \/ S_Refuse \/ S_Wake \/ S_WaitWake \/ S_CalleeKills
 
-TNext == SpawnLine \/ SpawnFLine \/ EnvCancelLine \/ XresLine \/ SkipLine \/ EnvSkipLine \/ StartLine \/ OpLine \/ ExcLine \/ ResLine
+TNext == SpawnLine \/ SpawnFLine \/ EnvCancelLine \/ N2iLine \/ XresLine \/ SkipLine \/ EnvSkipLine \/ StartLine \/ OpLine \/ ExcLine \/ ResLine
          \/ CbLine \/ CbOpLine \/ CbResLine \/ SnapLine
          \/ S_ReaperTake \/ S_ReaperDone \/ S_DeliverCancel \/ S_Cleanup \/ S_Refuse \/ S_Wake \/ S_WaitWake \/ S_CalleeKills
 TSpec == TInit /\ [][TNext]_tvars
